@@ -13,12 +13,14 @@ from props_solve import SolveProperty, SOLVERS, kv, trace_diff, parse_fw_line, c
 
 class C17(SolveProperty):
     id = "C17"
+    families = ["solve", "dyn"]
     tasks = ["SE", "DC", "DS"]
     certs = [0, 1]
     needs_bins = True
     rule = ("for every generated (framework, solver, encoder, query): a counting run (k SAT calls), then one run per call position 1..min(k,cap) in which the "
             "recording factory's solver returns Unknown at that call; the real call must unwind without an answer at the same call at which the Lean "
-            "program aborts; plus end-to-end runs of the crustabri binary with a scripted external solver failing in 5 ways at its i-th invocation; "
+            "program aborts; the same for update/query histories of the six dynamic solvers and the recompute wrappers (the i-th SAT call of the history "
+            "reports Unknown: the query in progress must unwind, and the run is compared with the Lean dynamic-solver models up to the abort); plus end-to-end runs of the crustabri binary with a scripted external solver failing in 5 ways at its i-th invocation; "
             "non-trivial = the fault position was reached")
     assumptions = ["panics are observed through catch_unwind in the harness; the CLI maps them to a non-zero exit status"]
 
@@ -57,9 +59,80 @@ class C17(SolveProperty):
                 positions = sorted(rng.sample(positions, cap))
             for i in positions:
                 out.append(b + " fault=%d" % i)
+        return out + self.dyn_cases(tier, rng)
+
+    def dyn_cases(self, tier, rng):
+        """update/query histories of the dynamic solvers in which the i-th SAT call of the history reports Unknown"""
+        import props_dyn
+        per = 14 if tier == "quick" else 500
+        base = []
+        for kind in props_dyn.KINDS:
+            for _ in range(per if not kind.startswith("dummy") else max(2, per // 4)):
+                toks = props_dyn.gen_history(rng, kind, rng.randint(5, 30))
+                if rng.random() < 0.3:
+                    toks = props_dyn.gadget_prefix(rng, kind) + toks
+                f = " factor=%s" % rng.choice(props_dyn.FACTORS) if kind.endswith("_att") else ""
+                base.append("dyn x kind=%s%s trace=1 hist=%s" % (kind, f, ";".join(toks)))
+        base = engine.renumber(base, "d")
+        r = common.Runner("C17pre", tier)
+        try:
+            _, impl = r.harness(base)
+        finally:
+            r.cleanup()
+        cap = 5 if tier == "quick" else 30
+        out = []
+        for b in base:
+            lines = impl.get(b.split(" ")[1], [])
+            k = len([l for l in lines if l.startswith("S ") and l.split(" ")[2:3] == ["q"]])
+            positions = list(range(1, k + 1))
+            if len(positions) > cap:
+                positions = sorted(rng.sample(positions, cap))
+            for i in positions:
+                out.append(b + " fault=%d" % i)
         return out
 
+    def judge_dyn(self, case_line, impl, model):
+        import props_dyn
+        fs = []
+        p = kv(case_line)
+        kind = p.get("kind")
+        fired = False
+        query = None
+        for l in impl:
+            if l.startswith("Q "):
+                query = l
+            if l.startswith("S ") and l.endswith(" k"):
+                fired = True
+                continue
+            if fired and (l.startswith("ans ") or l.startswith("U ")):
+                fs.append(Finding("input", case_line, "dynamic solver %s: %r was answered (%s) although the backend reported Unknown at SAT call %s of the history"
+                                  % (kind, query, l[:60], p.get("fault")), "dyn %s · answer after Unknown" % kind,
+                                  {"impl": [x for x in impl if not x.startswith("S ")][-6:]}))
+                return fs
+            if fired and l.startswith("panic"):
+                break
+        if not fired:
+            return fs
+        if not any(l.startswith("panic") for l in impl):
+            fs.append(Finding("input", case_line, "neither an answer nor an abort was observed", "dyn %s · no abort" % kind))
+            return fs
+        if kind in props_dyn.MODELLED:
+            a = props_dyn.impl_stream(impl)
+            b, stopped = props_dyn.model_stream(model)
+            if stopped:
+                a = a[:len(b)]
+            if a != b:
+                i = 0
+                while i < min(len(a), len(b)) and a[i] == b[i]:
+                    i += 1
+                fs.append(Finding("correspondence", case_line,
+                                  "faulted history: the dynamic solver and its Lean model differ at event %d: impl %r model %r" % (i, a[i] if i < len(a) else None, b[i] if i < len(b) else None),
+                                  "dyn %s · faulted run differs from model" % kind, {"impl": a[max(0, i - 3):i + 3], "model": b[max(0, i - 3):i + 3]}))
+        return fs
+
     def judge(self, case_line, impl, model):
+        if case_line.startswith("dyn "):
+            return self.judge_dyn(case_line, impl, model)
         fs = []
         p = kv(case_line)
         fired = any(l.startswith("S ") and l.endswith(" k") for l in impl)
